@@ -73,6 +73,9 @@ class Array:
         if isinstance(dtype, Dtype) and dtype.scale == 'auto':
             if isinstance(initializer, (int, Bits, bytes, bytearray, memoryview, BinaryIO)):
                 raise TypeError("An Array with an 'auto' scale factor can only be created from an iterable of values.")
+            if not isinstance(initializer, (Sized, Array, array.array)) and initializer is not None:
+                # The values are needed twice (for the scale, then for the items), so a one-shot iterable is kept.
+                initializer = list(initializer)
             auto_scale = self._calculate_auto_scale(initializer, dtype.name, dtype.length)
             dtype = Dtype(dtype.name, dtype.length, scale=auto_scale)
         try:
